@@ -958,7 +958,7 @@ pub fn decisive(w: &World, r: &mut Rng, s: &mut Sink, reps: usize) {
         let ob = (b + 1 + r.below(w.a16.len() as u64 - 1) as usize) % w.a16.len();
         let oc = (c + 1 + r.below(31) as u8) % 32;
         let long = |r: &mut Rng, n: usize| -> Vec<u8> { adc_long(mac, 128 + c, &samples(r, n, -3000, 3000), None, None) };
-        let mut put = |r: &mut Rng, s: &mut Sink, label: &str, extra: &[Bank]| {
+        let put = |r: &mut Rng, s: &mut Sink, label: &str, extra: &[Bank]| {
             let banks = inject(r, &base, extra);
             emit(s, "evt10", label, run, &banks);
         };
